@@ -26,10 +26,11 @@ import random
 
 import vlib
 
-# tier -> list of (Letters, Extra, MaxKeys, MaxEnters); Extra = {92} puts the backslash into the alphabet
+# tier -> list of (Letters, Extra, MaxKeys, MaxEnters[, BreakInLiterals]); Extra = {92} puts the backslash into the alphabet;
+# BreakInLiterals lets Enter be pressed inside a literal too (the console enters it as a blank)
 MC = {
-    "quick": [("{97}", "{92}", 8, 3), ("{97, 98}", "{}", 7, 2)],
-    "thorough": [("{97}", "{92}", 9, 4), ("{97}", "{}", 10, 4), ("{97, 98}", "{}", 9, 3)],
+    "quick": [("{97}", "{92}", 8, 3), ("{97, 98}", "{}", 7, 2), ("{97}", "{}", 8, 3, True)],
+    "thorough": [("{97}", "{92}", 9, 4), ("{97}", "{}", 10, 4), ("{97, 98}", "{}", 9, 3), ("{97}", "{}", 9, 3, True)],
 }
 MODES = ["typed", "lines", "paste", "bracketed", "bracketed_enter", "bracketed4"]
 # long random inputs (code -> spec): number of inputs per tier and their read schedules
@@ -48,10 +49,11 @@ def text(bs):
     return bytes(bs).decode("utf-8", "replace").replace("\r", "⏎")
 
 
-def mc_cfg(letters, extra, maxkeys, maxenters):
+def mc_cfg(letters, extra, maxkeys, maxenters, inlit=False):
     return """CONSTANTS
   Letters = %s
   Extra = %s
+  BreakInLiterals = %s
   MaxKeys = %d
   MaxEnters = %d
   EmitOn = TRUE
@@ -60,12 +62,13 @@ NEXT MCNext
 ACTION_CONSTRAINT Emit
 INVARIANTS TypeOK OutIsPrefix Faithful BufIsRest TaintExact TaintViolates
 CHECK_DEADLOCK FALSE
-""" % (letters, extra, maxkeys, maxenters)
+""" % (letters, extra, "TRUE" if inlit else "FALSE", maxkeys, maxenters)
 
 
 JUDGE_CFG = """CONSTANTS
   Letters = {97}
   Extra = {}
+  BreakInLiterals = TRUE
 INIT JInit
 NEXT JNext
 CHECK_DEADLOCK FALSE
@@ -537,7 +540,9 @@ def run(ctx):
         return run_replay(ctx)
     cov = new_cov()
     all_rejected = []
-    for idx, (letters, extra, maxkeys, maxenters) in enumerate(MC[ctx.tier]):
+    for idx, mc in enumerate(MC[ctx.tier]):
+        letters, extra, maxkeys, maxenters = mc[:4]
+        inlit = len(mc) > 4 and mc[4]
         scns = []
         d = ctx.sub("c20-%d" % idx)
         scn_path, out_path = os.path.join(d, "scn.ndjson"), os.path.join(d, "out.ndjson")
@@ -546,7 +551,7 @@ def run(ctx):
                 o["id"] = len(scns) + 1
                 scns.append(o)
                 f.write('{"id":%d,"keys":%s}\n' % (o["id"], json.dumps(o["keys"])))
-            res = vlib.run_tlc(ctx, "ConsoleMC", "ConsoleMC_gen.cfg", cfg_text=mc_cfg(letters, extra, maxkeys, maxenters),
+            res = vlib.run_tlc(ctx, "ConsoleMC", "ConsoleMC_gen.cfg", cfg_text=mc_cfg(letters, extra, maxkeys, maxenters, inlit),
                                tag=str(idx), timeout=1500, on_scn=on_scn)
         vlib.tlc_must_ok(ctx, res, "ConsoleMC %d" % idx)
         if not scns:
